@@ -144,6 +144,12 @@ def literal_segments(chroms, levels, cn1=None, arms=None):
         cols["cn1"] = list(cn1)
         cols["cn2"] = [None if b is None else a - b for a, b in zip(levels, cn1)]
     rows = [{c: v[i] for c, v in cols.items()} for i in range(n)]
+    if n == 0:
+        df = DF({c: Vec([], aligned=True) for c in cols}, 0)
+        df.exact = True
+        for v in df.cols.values():
+            v.exact = True
+        return GA("CopyNumArray", df, 0, {"sample_id": "S", "_arms": None})
     g = make_ga("CopyNumArray", rows, {"sample_id": "S", "_arms": list(arms) if arms else None}, index="any", exact=True)
     return g
 
@@ -186,6 +192,9 @@ def d2(chk, prog):
         for arms in ([0, 0, 1], [0, 1, 1], [0, 0, 0]):
             for chroms in (["chr1"] * 3, ["chr1", "chr1", "chr2"]):
                 configs.append((chroms, list(lv), None, arms, True))
+    # a table left without rows (ampdel on a sample without amplifications or deep deletions, then cn): nothing to merge, an empty table comes back
+    configs.append(([], [], None, None, False))
+    configs.append(([], [], [], None, False))
     bad, undecided = [], []
     for chroms, lv, c1, arms, by_arm in configs:
         W.reset()
@@ -219,6 +228,10 @@ def d2(chk, prog):
             bad.append(dict(chromosomes=chroms, levels=lv, cn1=c1, arms=arms, raised=str(r)[:100]))
             continue
         data = out.data if isinstance(out, GA) else out
+        if not chroms:
+            if not (isinstance(data, DF) and data.n == 0):
+                bad.append(dict(chromosomes=chroms, levels=lv, cn1=c1, got=repr(out)[:80], want="an empty table"))
+            continue
         got = [list(x) for x in data.cols["rows"].v] if isinstance(data, DF) and "rows" in data.cols else ([[i] for i in data.cols["rowid"].v] if isinstance(data, DF) and "rowid" in data.cols else repr(out))
         want = want_groups(chroms, lv, c1, arms)
         if got != want:
@@ -411,7 +424,7 @@ def d6(chk, prog):
     lists = [()]
     for k in (1, 2, 3):
         lists += [p for p in itertools.permutations(names, k) if not ("ci" in p and "sem" in p)]
-    for filters, method in itertools.product(lists, ("threshold", "clonal")):
+    for filters, method in itertools.product(lists, ("threshold", "clonal", "none")):
         W.reset()
         model = Model()
 
@@ -424,6 +437,10 @@ def d6(chk, prog):
         for nm in ("absolute_threshold", "absolute_clonal", "absolute_pure"):
             model.prims[f"cnvlib.call.{nm}"] = lambda it, cn, *a, **k: Vec([Term.sym(f"c{i}", 0, INF, True) for i in range(cn.data.n)])
         rows = [dict(chromosome="chr1", start=Term.sym(f"s{i}"), end=Term.sym(f"e{i}"), gene="g", log2=Term.sym(f"v{i}"), probes=5, weight=1) for i in range(2)]
+        if method == "none":
+            # nothing is called: the table brings its own copy numbers (a .call.cns filtered again)
+            for i, r_ in enumerate(rows):
+                r_["cn"] = Term.sym(f"c{i}", 0, INF, True)
         g = make_ga("CopyNumArray", rows, {"sample_id": "S"}, index="any", labels=[7, 3])
         given = list(filters)
         it = Interp(prog, model)
@@ -431,7 +448,7 @@ def d6(chk, prog):
         if out is None:
             continue
         early = [f for f in filters if f in ("ci", "sem")]
-        want = [(f, False) for f in early] + [(f, True) for f in filters if f not in early]
+        want = [(f, method == "none") for f in early] + [(f, True) for f in filters if f not in early]
         got = list(out.meta.get("stages", ()))
         tb.cell(got == want and given == list(filters), dict(filters=list(filters), method=method, ran=got, want=want, callers_list_after=given))
     tb.done("the filters do not run as asked: ci / sem before the copy numbers are called, the others afterwards in the order given (ampdel before cn drops the neutral pieces first)")
